@@ -51,7 +51,7 @@ class Device:
         self.default_busy = list(default_busy)
         self.errors = errors or {}
         self.stall_in_error = stall_in_error
-        self.error_state = error_state      # state announced together with an error status (nonconforming devices keep dfuDNLOAD-IDLE)
+        self.error_state = error_state      # state announced together with an error status (nonconforming devices: dfuDNLOAD-IDLE, dfuIDLE, or dfuDNBUSY followed by an all-clear)
         self.state = ERROR if start_error else IDLE
         self.status = 14 if start_error else 0
         self.now = 0.0
@@ -164,6 +164,9 @@ class Device:
         reply = struct.pack('<BBBBBB', self.status, delay & 0xff, (delay >> 8) & 0xff, (delay >> 16) & 0xff, self.state, 0)
         if self.status and self.state != ERROR:
             self.status = 0          # the nonconforming device reports the failure once and carries on
+            if self.state == DNBUSY:
+                # ... it said "error, still busy": the next poll finds the operation over and nothing to report any more
+                self.state = DNLOAD_IDLE
         return reply
 
     def apply(self, op):
